@@ -6,6 +6,6 @@ export CARGO_NET_OFFLINE=true
 python3 tools/extract_params.py || echo "setup: Params extraction reported problems (checks will report them)"
 sh tools/mkcoqproject.sh
 ( cd coq && timeout 3000 make -j16 ) || echo "setup: coq build incomplete (checks will report)"
-cp /repo/Cargo.lock harness/Cargo.lock.repo 2>/dev/null || true
+sh tools/mkcargo.sh
 ( cd harness && timeout 3000 cargo build --release --offline ) || echo "setup: harness build failed (checks will report)"
 echo "setup done"
